@@ -379,9 +379,15 @@ func (s *SessionState) onAuthResult(allowed bool, attributes map[string]interfac
 
 func (s *SessionState) extractIPFromAttributes() {
 	if ip, ok := s.Attributes[aaa.AttrIPv4Address]; ok {
-		if parsed := net.ParseIP(ip); parsed != nil {
+		// Only a usable IPv4 address counts as an assignment: 0.0.0.0 or an
+		// IPv6 literal would leave IPCP without an assigned peer address and
+		// the subscriber could then negotiate any address it proposes.
+		if parsed := net.ParseIP(ip); parsed != nil && parsed.To4() != nil && !parsed.IsUnspecified() {
 			s.IPv4Address = parsed
 			s.component.logger.Debug("Got IPv4 from AAA", "ip", ip)
+		} else {
+			s.component.logger.Warn("Ignoring unusable IPv4 address from AAA",
+				"session_id", s.SessionID, "ip", ip)
 		}
 	}
 
